@@ -25,6 +25,23 @@ TLA_CP = TLA_JAR + ":/opt/veriftools/tla/CommunityModules-deps.jar"
 NCPU = os.cpu_count() or 4
 
 
+def mem_available_gb():
+    try:
+        for ln in open("/proc/meminfo"):
+            if ln.startswith("MemAvailable:"):
+                return int(ln.split()[1]) / 1048576.0
+    except (OSError, ValueError):
+        pass
+    return 1e9
+
+
+def wait_for_memory(need_gb, patience=900):
+    """Block until `need_gb` of memory is available (at most `patience` seconds, then go ahead anyway)."""
+    t0 = time.time()
+    while mem_available_gb() < need_gb and time.time() - t0 < patience:
+        time.sleep(2 + (os.getpid() % 7) * 0.3)
+
+
 class Inconclusive(Exception):
     pass
 
@@ -219,12 +236,21 @@ class Ctx:
         if env:
             e.update({k: str(v) for k, v in env.items()})
         t = time.time()
-        try:
-            p = subprocess.run(cmd, cwd=d, env=e, stdout=subprocess.PIPE, stderr=subprocess.STDOUT,
-                               timeout=timeout)
-        except subprocess.TimeoutExpired:
-            subprocess.run(["pkill", "-f", d], check=False)
-            raise Inconclusive("TLC timeout on %s" % spec)
+        for attempt in (1, 2, 3):
+            # a JVM may grow to its heap limit: start it only when that much memory is free (other checks, or other
+            # TLC processes of this one, may be running), and start it again if the kernel killed it for memory
+            wait_for_memory(float(heap.rstrip("g")) + 1.0 if heap and heap.endswith("g") else 4.0)
+            try:
+                p = subprocess.run(cmd, cwd=d, env=e, stdout=subprocess.PIPE, stderr=subprocess.STDOUT,
+                                   timeout=timeout)
+            except subprocess.TimeoutExpired:
+                subprocess.run(["pkill", "-f", d], check=False)
+                raise Inconclusive("TLC timeout on %s" % spec)
+            if p.returncode not in (-9, 137) or attempt == 3:
+                break
+            self.log("tlc %s: killed (rc=%d), attempt %d; starting it again" % (name, p.returncode, attempt))
+            shutil.rmtree(os.path.join(d, "meta"), ignore_errors=True)
+            time.sleep(5 * attempt)
         out = p.stdout.decode("utf8", "replace")
         r = TLCResult(p.returncode, out, time.time() - t)
         with open(os.path.join(d, "tlc.out"), "w") as f:
